@@ -218,6 +218,57 @@ def concrete(cfg, inputs, only=None):
     return bool(bad), d
 
 
+
+# ---- the two well-cost adjustment factors: the one the user states for injection wells is the one used -----------------------------
+def run_factor_sync(unit):
+    """real Economics.sync_well_drilling_and_completion_capital_cost_adjustment_factor on symbolic factors, which of the two lines was
+    given symbolic: a stated injection-well factor is used as stated (also when it equals the default, 1.0); only an injection factor
+    that was NOT stated follows the production-well factor."""
+    from . import c04
+    cfg = {'harness': 'factor-sync'}
+    log = harness.UnitLog(cfg)
+    names = ['production well factor', 'injection well factor']
+    zv = {n: z3.Real(n) for n in names}
+    zv.update({'production factor given': z3.Bool('production factor given'), 'injection factor given': z3.Bool('injection factor given')})
+
+    def run(p, q, gp, gq):
+        m = c04.prepared(c04.cfg_of('electricity', 2, 1, False)).reset()
+        e = m.economics
+        q0 = e.injection_well_cost_adjustment_factor.DefaultValue
+        e.production_well_cost_adjustment_factor.value, e.production_well_cost_adjustment_factor.Provided = (p if gp else e.production_well_cost_adjustment_factor.DefaultValue), gp
+        e.injection_well_cost_adjustment_factor.value, e.injection_well_cost_adjustment_factor.Provided = (q if gq else q0), gq
+        e.sync_well_drilling_and_completion_capital_cost_adjustment_factor(m)
+        P_, Q_ = e.production_well_cost_adjustment_factor.value, e.injection_well_cost_adjustment_factor.value
+        out = []
+        if gq:
+            out.append(('a stated injection-well cost adjustment factor is used as stated', core.near(Q_, q, 1e-12)))
+        elif gp:
+            out.append(('an injection-well factor that was not stated follows the stated production-well factor', core.near(Q_, p, 1e-12)))
+        else:
+            out.append(('neither stated: the injection-well factor stays at its default', core.near(Q_, q0, 1e-12)))
+        if gp:
+            out.append(('a stated production-well cost adjustment factor is used as stated', core.near(P_, p, 1e-12)))
+        return out
+
+    def concrete(inp, only=None):
+        obs = run(float(inp.get(names[0], 1.5)), float(inp.get(names[1], 1.0)), bool(inp.get('production factor given', False)), bool(inp.get('injection factor given', False)))
+        bad = [n for n, ok in obs if not ok and (only is None or n == only)]
+        return bool(bad), {'failed': bad}
+
+    def fn():
+        p, q = core.sym(names[0], 0, 10), core.sym(names[1], 0, 10)
+        return run(p, q, bool(core.symbool('production factor given')), bool(core.symbool('injection factor given')))
+    for pr in core.explore(fn, max_paths=64):
+        log.path(pr)
+        if pr.error is not None:
+            raise pr.error
+        if pr.aborted:
+            continue
+        harness.reachable(log, pr.ctx, 1000)
+        for name, cond in pr.value:
+            harness.discharge(log, pr.ctx, name, cond, zv, lambda inp, name=name: concrete(inp, name), timeout_ms=10000, sample=True)
+    yield log.result()
+
 def units(tier, seed):
     us = []
     for ki, kind in enumerate(KINDS_T[tier]):
@@ -242,6 +293,7 @@ def units(tier, seed):
             fl.update({'ccstimfixed.Valid': False, 'oamplantfixed.Valid': False})
         us.append(sbt_cfg(fl))
     us.append({'harness': 'sutra'})      # reservoir thermal energy storage family: SUTRAEconomics.Calculate
+    us.append({'harness': 'factor-sync'})
     return us
 
 
@@ -249,6 +301,9 @@ def run_unit(unit):
     if unit.get('harness') == 'sutra':
         from . import c03sutra
         yield from c03sutra.run_unit(unit)
+        return
+    if unit.get('harness') == 'factor-sync':
+        yield from run_factor_sync(unit)
         return
     cfg = {k: v for k, v in unit.items() if k != 'tier'}
     spec = spec_of(cfg)
